@@ -7,6 +7,7 @@ import (
 
 	"google.golang.org/grpc/encoding"
 	grpcproto "google.golang.org/grpc/encoding/proto"
+	"google.golang.org/protobuf/proto"
 	"google.golang.org/protobuf/types/known/anypb"
 
 	"github.com/fullstorydev/grpchan/internal"
@@ -15,18 +16,33 @@ import (
 
 // verifSymMsg builds a message with symbolic content: bytes, scalars, a map entry
 // and 0..2 nested Any details.
-func verifSymMsg(prefix string) *verifMsg {
-	m := &verifMsg{
-		Payload: zv.Bytes(prefix+"payload", zv.Param("payloadcap", 2)),
-		Count:   zv.Int32(prefix + "count"),
-		Code:    zv.Int32(prefix + "code"),
+func verifSymMsg(prefix string, m *verifMsg, small bool) *verifMsg {
+	m.Count = zv.Int32(prefix + "count")
+	if small {
+		// the unknown-field cases: one symbolic payload byte and a symbolic scalar
+		m.Payload = zv.Bytes(prefix+"payload", 1)
+		return m
 	}
+	m.Payload = zv.Bytes(prefix+"payload", zv.Param("payloadcap", 2))
+	m.Code = zv.Int32(prefix + "code")
 	if zv.Bool(prefix + "has-header") {
 		m.Headers = map[string][]byte{"h": zv.Bytes(prefix+"hv", 1)}
 	}
 	n := zv.Choose(prefix+"details", zv.Param("maxdetails", 1)+1)
 	for i := 0; i < n; i++ {
 		m.ErrorDetails = append(m.ErrorDetails, &anypb.Any{TypeUrl: "t", Value: zv.Bytes(prefix+"detail"+string(rune('0'+i)), 1)})
+	}
+	return m
+}
+
+// verifBase returns an empty message, or one holding only the unknown field raw
+// (decoded from the wire, as the runtime would have received it).
+func verifBase(raw []byte) *verifMsg {
+	m := &verifMsg{}
+	if raw != nil {
+		if err := proto.Unmarshal(raw, m); err != nil {
+			zv.Fail("unknown-field-bytes-decode")
+		}
 	}
 	return m
 }
@@ -91,9 +107,25 @@ func verifCloner(kind int) Cloner {
 func Verif_C18_Adapters() {
 	kind := zv.Choose("adapter", 4)
 	cl := verifCloner(kind)
-	src := verifSymMsg("src-")
+	// a field the message type does not know (number 100, varint), as a message
+	// from a newer peer carries it: the runtime keeps it with the message, and a
+	// copy that is equal to the source carries it too
+	var raw []byte
+	if zv.Bool("src-has-unknown-field") {
+		ub := zv.Bytes("src-unknown-value", 1)
+		if len(ub) != 1 {
+			return
+		}
+		zv.Assume(ub[0] < 0x80)
+		raw = []byte{0xA0, 0x06, ub[0]}
+	}
+	// (the unknown-field dimension is explored with a small known part, the known
+	// part in full without unknown fields: a sum, not a product)
+	unknownFocus := raw != nil
+	src := verifSymMsg("src-", verifBase(raw), unknownFocus)
 	// an independent snapshot of the source, built from the same symbolic values
-	snap := &verifMsg{Payload: append([]byte(nil), src.Payload...), Count: src.Count, Code: src.Code}
+	snap := verifBase(raw)
+	snap.Payload, snap.Count, snap.Code = append([]byte(nil), src.Payload...), src.Count, src.Code
 	if src.Headers != nil {
 		snap.Headers = map[string][]byte{"h": append([]byte(nil), src.Headers["h"]...)}
 	}
@@ -117,8 +149,14 @@ func Verif_C18_Adapters() {
 		zv.Reach("cloned")
 	} else {
 		// destination with previous content that must disappear entirely
-		cp = &verifMsg{Payload: []byte{9, 9, 9}, Count: 77, DelayMillis: 5, Trailers: map[string][]byte{"old": []byte("x")},
-			ErrorDetails: []*anypb.Any{{TypeUrl: "old"}}}
+		var old []byte
+		if unknownFocus && zv.Bool("dst-has-unknown-field") {
+			old = []byte{0xA8, 0x06, 0x01} // field 101
+		}
+		cp = verifBase(old)
+		cp.Payload, cp.Count, cp.DelayMillis = []byte{9, 9, 9}, 77, 5
+		cp.Trailers = map[string][]byte{"old": []byte("x")}
+		cp.ErrorDetails = []*anypb.Any{{TypeUrl: "old"}}
 		if zv.Bool("dst-has-header") {
 			cp.Headers = map[string][]byte{"old-h": []byte("x")}
 		}
@@ -132,6 +170,12 @@ func Verif_C18_Adapters() {
 	zv.Observe("adapter", kind, op, len(cp.Payload))
 	zv.Assert(verifMsgEqual(cp, snap), "copy-equals-source-with-no-residue")
 	zv.Assert(verifMsgEqual(src, snap), "source-left-unchanged")
+	// the encodings agree as well (this is where unknown fields show)
+	if unknownFocus {
+		eb, e1 := proto.Marshal(snap)
+		cb, e2 := proto.Marshal(cp)
+		zv.Assert(e1 == nil && e2 == nil && bytes.Equal(eb, cb), "copy-encodes-like-the-source")
+	}
 	// independence in both directions
 	verifScramble(src)
 	zv.Assert(verifMsgEqual(cp, snap), "copy-unaffected-by-later-source-mutation")
